@@ -78,6 +78,8 @@ pub enum SOp {
     SetPolicy { n: usize, pol: Pol },
     HasNews { n: usize, heads: Vec<(usize, u64)> },
     Reopen,
+    /// C18: close the file store, delete derived tables with plain redb, open it again
+    DropDerived { latest: bool, by_key: bool },
     /// observe everything observable about document `n`
     Observe { n: usize },
     ObserveAll,
@@ -142,14 +144,28 @@ impl<'a> StoreWorld<'a> {
             headts.push((hex(a.as_bytes()), ts));
         }
         let heads_line = format!("heads {} {}", hs.len(), hs.join(";"));
-        if self.focus == "C18" {
-            // after a rebuild only the timestamps are determined (ties: either key)
-        } else {
-            self.lines.push(Line::model(format!("theads 1 {nsh}"), heads_line));
-        }
+        self.lines.push(Line::model(format!("theads 1 {nsh}"), heads_line));
         if matches!(self.focus, "C13" | "C18" | "C16" | "C06") {
             // specification: head = greatest timestamp among the author's entries held
             self.lines.push(Line::oracle(format!("sheads 1 {nsh}"), format!("headts {}", heads_tok(&headts))));
+        }
+        if self.focus == "C18" {
+            // key-ordered queries answered through the (rebuilt) by-key index
+            for (qt, q) in [
+                ("flat-ka * any - 0 1 0", iroh_docs::store::Query::all().include_empty()
+                    .sort_by(iroh_docs::store::SortBy::KeyAuthor, iroh_docs::store::SortDirection::Asc).build()),
+                ("flat-ka * any - 0 0 1", iroh_docs::store::Query::all()
+                    .sort_by(iroh_docs::store::SortBy::KeyAuthor, iroh_docs::store::SortDirection::Desc).build()),
+                ("latest * any - 0 1 0", iroh_docs::store::Query::single_latest_per_key().include_empty().build()),
+            ] {
+                let mut toks = Vec::new();
+                for e in store.get_many(nsid, q)? {
+                    toks.push(stored_tok(&e?));
+                }
+                let imp = entries_line(&toks);
+                self.lines.push(Line::model(format!("tquery 1 {nsh} {qt}"), imp.clone()));
+                self.lines.push(Line::oracle(format!("squery 1 {nsh} {qt}"), imp));
+            }
         }
         // peers
         let peers = match store.get_sync_peers(&nsid)? {
@@ -342,9 +358,38 @@ impl<'a> StoreWorld<'a> {
                     self.lines.push(Line::oracle(format!("shasnews 1 {} {}", self.nshex(*n), heads_tok(&toks)), imp));
                 }
             }
+            SOp::DropDerived { latest, by_key } => {
+                if let Some(f) = &self.rs.file {
+                    self.rs.store.flush()?;
+                    let old = std::mem::replace(&mut self.rs.store, iroh_docs::store::Store::memory());
+                    drop(old);
+                    {
+                        use redb::TableHandle;
+                        let db = redb::Database::create(f.path())?;
+                        let tx = db.begin_write()?;
+                        let names: Vec<String> = tx.list_tables()?.map(|h| h.name().to_string()).collect();
+                        for h in tx.list_tables()? {
+                            if (*latest && h.name() == "latest-by-author-1") || (*by_key && h.name() == "records-by-key-1") {
+                                tx.delete_table(h)?;
+                            }
+                        }
+                        let _ = names;
+                        tx.commit()?;
+                    }
+                    self.rs.store = iroh_docs::store::Store::persistent(f.path())?;
+                    for n in 0..self.open.len() {
+                        if self.open[n] {
+                            self.open[n] = false;
+                            self.lines.push(Line::model(format!("tclose 1 {}", self.nshex(n)), "ok"));
+                        }
+                    }
+                    self.lines.push(Line::model(format!("tmigrate 1 {} {}", *latest as u8, *by_key as u8), "ok"));
+                }
+            }
             SOp::Reopen => {
                 self.rs.reopen()?;
                 if self.rs.file.is_some() {
+                    self.lines.push(Line::model("treopen 1", "ok"));
                     // a reopened store has no open replicas
                     for n in 0..self.open.len() {
                         if self.open[n] {
